@@ -529,8 +529,12 @@ impl Gen {
 
     fn gen_script(&mut self, m: &Model) -> Option<Op> {
         let mut sg = crate::scriptgen::ScriptGen::new(self.rng.next(), &self.labels);
-        let r = sg.program(m, 1, 8);
-        r.map(|(cmds, text)| Op::Script { text, cmds, fault_at: None })
+        let cmds = sg.ast(m, 1, 8)?;
+        // one script in five is malformed in one command: Err, the commands before it applied, and whatever a
+        // failing deployment leaves behind (allocator, variables) meets the rest of the history
+        let fault = if self.rng.chance(1, 5) { crate::scriptgen::ScriptGen::pick_fault(&cmds, &mut self.rng) } else { None };
+        let text = sg.render(&cmds, fault);
+        Some(Op::Script { text, cmds, fault_at: fault.map(|f| f.0) })
     }
 
     /// Directed prelude: k two-vertex groups alive at once (k up to 14), some holding unread data,
